@@ -53,6 +53,7 @@ type field struct {
 	tagPol     string // "", merge, replace, append, prepend
 	hint       hint
 	hasInit    bool // primitive type with InitDefaults
+	elemPtr    bool // kSliceStruct: the elements are pointers to structs
 	owner      *stype
 }
 
@@ -145,6 +146,9 @@ func (f *field) shape() string {
 	case kSlicePrim:
 		return "slice-" + family(f.prim)
 	case kSliceStruct:
+		if f.elemPtr {
+			return "slice-ptr-struct"
+		}
 		return "slice-struct"
 	case kArrayPrim:
 		return "array-" + family(f.prim)
@@ -224,6 +228,8 @@ func describe(t reflect.Type) *stype {
 			f.kind, f.prim = kSlicePrim, ft.Elem()
 		case ft.Kind() == reflect.Slice && ft.Elem().Kind() == reflect.Struct:
 			f.kind, f.sub = kSliceStruct, describe(ft.Elem())
+		case ft.Kind() == reflect.Slice && ft.Elem().Kind() == reflect.Ptr && ft.Elem().Elem().Kind() == reflect.Struct:
+			f.kind, f.sub, f.elemPtr = kSliceStruct, describe(ft.Elem().Elem()), true
 		case ft.Kind() == reflect.Array && isPrimType(ft.Elem()):
 			f.kind, f.prim = kArrayPrim, ft.Elem()
 		case ft.Kind() == reflect.Map && isPrimType(ft.Elem()):
@@ -341,18 +347,18 @@ func (g *tgen) structType(depth, nf int, validators bool) reflect.Type {
 			sf.Type = reflect.PtrTo(primTypes[r.Intn(len(primTypes))])
 		case x < 51: // struct by value
 			sf.Type = nested(validators)
-			if r.Intn(6) == 0 {
+			if r.Intn(3) == 0 {
 				opts = append(opts, inheritPols[r.Intn(len(inheritPols))])
 			}
 		case x < 57: // pointer to struct
 			sf.Type = reflect.PtrTo(nested(false))
-			if r.Intn(6) == 0 {
+			if r.Intn(3) == 0 {
 				opts = append(opts, inheritPols[r.Intn(len(inheritPols))])
 			}
 		case x < 62: // inline struct by value (generated only: names stay unique)
 			sf.Type = g.structType(depth-1, 1+r.Intn(3), validators)
 			opts = append(opts, []string{"inline", "inline", "squash"}[r.Intn(3)])
-			if r.Intn(6) == 0 {
+			if r.Intn(3) == 0 {
 				opts = append(opts, inheritPols[r.Intn(len(inheritPols))])
 			}
 		case x < 76:
@@ -362,6 +368,9 @@ func (g *tgen) structType(depth, nf int, validators bool) reflect.Type {
 			}
 		case x < 81:
 			sf.Type = reflect.SliceOf(g.primStruct())
+			if r.Intn(3) == 0 {
+				sf.Type = reflect.SliceOf(reflect.PtrTo(g.primStruct()))
+			}
 			if r.Intn(2) == 0 {
 				opts = append(opts, listPols[r.Intn(len(listPols))])
 			}
